@@ -484,7 +484,14 @@ func oracle(c Case, o *h.Obs) *h.Fail {
 		return f
 	}
 	if r.lateness > bound {
-		return h.Failf(sig("late-return"), "ExecuteContext returned %v after the cancellation (bound %v)\n%s", r.lateness, bound, detail)
+		// every re-execution costs seconds: reported as found, unshrunk, once per core
+		f := h.Failf(sig("late-return"), "ExecuteContext returned %v after the cancellation (bound %v)\n%s", r.lateness, bound, detail)
+		if !ctxRef.InReplay() {
+			ctxRef.Violation("cancel", f, c)
+			hungCores[c.Core] = true
+			return nil
+		}
+		return f
 	}
 	if r.err == nil || r.err.Error() != "execution interrupted" {
 		return h.Failf(sig("wrong-error"), "ExecuteContext returned error %v, want \"execution interrupted\"\n%s", r.err, detail)
